@@ -629,7 +629,11 @@ def _run_proc(case, coq, psutil, fp, time):
                 ct = p.cpu_times()
                 want = [Fraction(v, case["clk"]) for v in e["r1"][1:]]
                 got = [Fraction(x) for x in (ct.user, ct.system, ct.children_user, ct.children_system, ct.iowait)]
-                assert all(abs(a - b) <= Fraction(1, 10 ** 6) * max(1, b) for a, b in zip(got, want)), (got, want)
+                if not all(abs(a - b) <= Fraction(1, 10 ** 6) * max(1, b) for a, b in zip(got, want)):
+                    # Process.cpu_times() does not report the five counters of the stat record in their places:
+                    # an answer of the implementation (judged against the spec), not a harness failure
+                    out.append(T("ProcTimesMismatch", [str(x) for x in got], [str(x) for x in want]))
+                    continue
             pending["then"], pending["slept"] = (e["r2"] if e["iv"] == "pos" else None), 0
             iv = {"none": None, "zero": e.get("zero", 0), "pos": 0.5, "neg": -0.5}[e["iv"]]
             r = _shape_outcome(lambda: p.cpu_percent(interval=iv), lambda x: (None, _frac(x)))
